@@ -16,6 +16,7 @@ import (
 	"strconv"
 	"strings"
 	"sync/atomic"
+	"time"
 
 	"github.com/mithrandie/csvq/lib/option"
 	"github.com/mithrandie/csvq/lib/query"
@@ -380,6 +381,7 @@ func NewSequence(g *hc.Gen, o *hc.Out, root string, seqNo int, twin bool, maxRow
 	r.CPU = 1 + g.Intn(4)
 	mk := func(dir string) *hc.Proc {
 		pr := hc.NewProc(dir)
+		pr.P.Tx.WaitTimeout = 500 * time.Millisecond
 		pr.SetCPU(r.CPU)
 		for _, d := range decls {
 			if d.t.File {
@@ -1720,6 +1722,11 @@ func (r *Runner) Exec(st *Stmt, cancelAt int64) *Outcome {
 			wrap = WrapKinds[r.G.Intn(len(WrapKinds))]
 		}
 	}
+	if wrap == "func" && (strings.Contains(" "+st.Op+" ", " stdin ") || strings.Contains(st.Op, "$stdin.")) {
+		// SELECT fn() whose body changed STDIN fails with the stdin lock time-out after the body's statement took
+		// effect (the re-lock defect described at Outcome.TouchedStdin): no function bodies around STDIN statements
+		wrap = "if"
+	}
 	st.Prog = Program(st.SQL, wrap)
 	stdout, err := r.Pr.Exec(st.Prog)
 	r.Pr.Ctx = saved
@@ -2222,6 +2229,7 @@ func newFixedRunner(g *hc.Gen, o *hc.Out, root, tag string, tabs []fixedTab) *Ru
 	}
 	mk := func(dir string) *hc.Proc {
 		pr := hc.NewProc(dir)
+		pr.P.Tx.WaitTimeout = 500 * time.Millisecond
 		pr.SetCPU(1)
 		for _, ft := range tabs {
 			if ft.file {
